@@ -233,6 +233,78 @@ func (e *Engine) conjunct(c []Token, filters *[]string) (pred, bool) {
 	return nil, false
 }
 
+func splitOr(toks []Token) [][]Token {
+	var out [][]Token
+	depth, start := 0, 0
+	for i, t := range toks {
+		if t.Kind == TOp && t.Text == "(" {
+			depth++
+		} else if t.Kind == TOp && t.Text == ")" {
+			depth--
+		} else if depth == 0 && t.Kind == TIdent && t.Text == "or" {
+			out = append(out, toks[start:i])
+			start = i + 1
+		}
+	}
+	return append(out, toks[start:])
+}
+
+// boolExpr understands and / or / not and parentheses over the atoms conjunct knows.
+func (e *Engine) boolExpr(c []Token, filters *[]string) (pred, bool) {
+	c = stripParens(c)
+	if len(c) == 0 {
+		return nil, false
+	}
+	if ors := splitOr(c); len(ors) > 1 {
+		var ps []pred
+		for _, o := range ors {
+			p, ok := e.boolExpr(o, filters)
+			if !ok {
+				return nil, false
+			}
+			ps = append(ps, p)
+		}
+		return func(r Row) bool {
+			for _, p := range ps {
+				if p(r) {
+					return true
+				}
+			}
+			return false
+		}, true
+	}
+	if ands := splitAnd(c); len(ands) > 1 {
+		var ps []pred
+		for _, a := range ands {
+			p, ok := e.boolExpr(a, filters)
+			if !ok {
+				return nil, false
+			}
+			ps = append(ps, p)
+		}
+		return func(r Row) bool {
+			for _, p := range ps {
+				if !p(r) {
+					return false
+				}
+			}
+			return true
+		}, true
+	}
+	if c[0].Kind == TIdent && c[0].Text == "not" {
+		var inner []string
+		p, ok := e.boolExpr(c[1:], &inner)
+		if !ok {
+			return nil, false
+		}
+		for _, f := range inner {
+			*filters = append(*filters, "not "+f)
+		}
+		return func(r Row) bool { return !p(r) }, true
+	}
+	return e.conjunct(c, filters)
+}
+
 // Answer implements sqlrec.Answer.
 func (e *Engine) Answer(sql string) ([]string, [][]driver.Value, error) {
 	toks, err := Lex(sql)
@@ -309,7 +381,7 @@ func (e *Engine) selectRows(toks []Token, sql string, record bool) ([]string, []
 	var filters []string
 	if where >= 0 {
 		for _, c := range splitAnd(toks[where+1 : bound(where)]) {
-			p, ok := e.conjunct(c, &filters)
+			p, ok := e.boolExpr(c, &filters)
 			if !ok {
 				return e.unhandled("conjunct not understood: %s   in: %s", textOf(c), sql)
 			}
